@@ -59,3 +59,80 @@ pub use association::server::{ServerAssociation, ServerAssociationOptions};
 pub use pdu::Pdu;
 pub use pdu::read_pdu;
 pub use pdu::write_pdu;
+
+/// Entry points to crate-private functions for external verification.
+///
+/// Only available when compiling with `--cfg enet4_dicom_rs_verif`.
+#[cfg(enet4_dicom_rs_verif)]
+pub mod verif_hooks {
+    use crate::association::Error;
+    use crate::pdu::{Pdu, PresentationContextProposed};
+    use crate::{ClientAssociationOptions, ServerAssociationOptions};
+
+    #[cfg(feature = "async")]
+    pub use crate::association::AsyncPDataWriter;
+    pub use crate::association::NegotiatedOptionsForVerif;
+    pub use crate::association::PDataWriter;
+    pub use crate::association::server::{AccessControl, Negotiation};
+
+    /// See `PDataWriter::new`.
+    pub fn new_pdata_writer<W: std::io::Write>(
+        stream: W,
+        presentation_context_id: u8,
+        max_pdu_length: u32,
+    ) -> PDataWriter<W> {
+        PDataWriter::new_for_verif(stream, presentation_context_id, max_pdu_length)
+    }
+
+    /// See `AsyncPDataWriter::new`.
+    #[cfg(feature = "async")]
+    pub fn new_async_pdata_writer<W: tokio::io::AsyncWrite + Unpin>(
+        stream: W,
+        presentation_context_id: u8,
+        max_pdu_length: u32,
+    ) -> AsyncPDataWriter<W> {
+        AsyncPDataWriter::new_for_verif(stream, presentation_context_id, max_pdu_length)
+    }
+
+    /// See `association::encode_pdu`.
+    pub fn encode_pdu(
+        buffer: &mut Vec<u8>,
+        pdu: &Pdu,
+        peer_max_pdu_length: u32,
+    ) -> Result<(), Error> {
+        crate::association::encode_pdu_for_verif(buffer, pdu, peer_max_pdu_length)
+    }
+
+    /// See `ServerAssociationOptions::process_a_association_rq`.
+    ///
+    /// Returns the PDU to send back, the negotiated options and the calling AE title,
+    /// or the PDU to send back and the error.
+    #[allow(clippy::result_large_err)]
+    pub fn process_a_association_rq<A, N>(
+        options: &ServerAssociationOptions<'_, A, N>,
+        msg: Pdu,
+    ) -> Result<(Pdu, NegotiatedOptionsForVerif, String), (Pdu, Error)>
+    where
+        A: AccessControl,
+        N: Negotiation,
+    {
+        options.process_a_association_rq_for_verif(msg)
+    }
+
+    /// See `ClientAssociationOptions::create_a_associate_req`.
+    pub fn create_a_associate_req(
+        options: &ClientAssociationOptions<'_>,
+        ae_title: Option<&str>,
+    ) -> Result<(Vec<PresentationContextProposed>, Pdu), Error> {
+        options.create_a_associate_req_for_verif(ae_title)
+    }
+
+    /// See `ClientAssociationOptions::process_a_association_resp`.
+    pub fn process_a_association_resp(
+        options: &ClientAssociationOptions<'_>,
+        msg: Pdu,
+        presentation_contexts_proposed: &[PresentationContextProposed],
+    ) -> Result<NegotiatedOptionsForVerif, Error> {
+        options.process_a_association_resp_for_verif(msg, presentation_contexts_proposed)
+    }
+}
